@@ -35,7 +35,8 @@ class MSeg(object):
 
     def copy(self):
         # Segment.copy() goes through format(): trailing empty elements / components are trimmed
-        return MSeg(self.node, self.sid, [list(c) for c in self.norm()[1]])
+        els = [list(c) for c in self.norm()[1]]
+        return MSeg(self.node, self.sid, els if els else [['']])      # format() of a segment without a non-empty element is 'SEG*~'
 
     def fmt(self):
         return gen_doc.render_seg(self.sid, [c if len(c) > 1 else c[0] for c in self.els])
@@ -668,8 +669,10 @@ class History(object):
                 xp = pyx12.path.X12Path(path)
             except Exception:
                 xp = None
-            if xp is not None and xp.seg_id and not path.startswith('/'):
-                exp = m_select(self.model, list(xp.loop_list), xp.seg_id, xp.id_val)
+            if xp is not None and (xp.seg_id or xp.loop_list):       # resolvable after all (a leading '/' is ignored by the relative API)
+                exp = m_select(self.model, list(xp.loop_list), xp.seg_id, xp.id_val) if (xp.seg_id or len(xp.loop_list) > 0) else []
+                if not xp.seg_id and xp.loop_list:
+                    exp = m_select(self.model, list(xp.loop_list), None, None)
                 if which == 'delete_node' and exp:
                     victim = exp[0]
                     for l in [self.model] + [m for (q, m) in loop_paths(self.model)]:
